@@ -29,7 +29,7 @@ LEVEL = META['level']
 RULE = ('a case = one (stream, chunking) parsed, or one (stream, truncation offset, chunking) delivered to the server; chunkings/offsets enumerated as described; distinct by the tuple; '
         'non-trivial = the stream has >= 2 frames or the cut falls inside a frame')
 ASSUMPTIONS = ['the server is given 3 s to close a connection after EOF (wall-clock only guards; exceeding it is inconclusive, not a violation)']
-REQUIRED = ['trunc:long-stream', 'parser:source-rememberable', 'parser:source-chainable', 'parser:streams', 'parser:two-way-splits', 'parser:bytewise', 'parser:k-way', 'parser:frame-spanning-recv-blocks', 'parser:zero-length-payload',
+REQUIRED = ['parser:truncated-then-eof', 'trunc:long-stream', 'parser:source-rememberable', 'parser:source-chainable', 'parser:streams', 'parser:two-way-splits', 'parser:bytewise', 'parser:k-way', 'parser:frame-spanning-recv-blocks', 'parser:zero-length-payload',
             'client:streams', 'client:responses', 'client:nop-frames', 'trunc:trials', 'trunc:inside-header', 'trunc:inside-payload', 'trunc:on-frame-boundary', 'trunc:inside-write-frame',
             'trunc:register-frame', 'monitor:state-equals-complete-frames-only', 'monitor:second-session-alive', 'monitor:fresh-session', 'monitor:connection-table-baseline',
             'monitor:reply-count']
@@ -84,6 +84,59 @@ def parse_stream(cpppo, parser, chunks, nframes, remembering=False):
     return out
 
 
+def check_truncated(ctx, cpppo, parser, frames, cut, remembering):
+    """stream[:cut] and then end-of-stream, signalled the way enip_srv_tcp does (an empty block is chained and the engine resumed):
+    exactly the frames that lie wholly before the cut may come out as messages"""
+    import contextlib
+    stream = b''.join(frames)
+    source = cpppo.rememberable() if remembering else cpppo.chainable()
+    chunks = [stream[:cut]] if cut else []
+    complete, pos = 0, 0
+    for f in frames:
+        pos += len(f)
+        if pos <= cut:
+            complete += 1
+    delivered = 0
+    wit = {'frames': [len(f) for f in frames], 'cut': cut, 'source': 'rememberable' if remembering else 'chainable', 'stream': stream[:400]}
+    try:
+        with parser.enip_machine(context='enip') as machine:
+            for _ in range(len(frames) + 1):
+                data = cpppo.dotdict()
+                if remembering:
+                    source.forget()
+                eof = False
+                steps = 0
+                with contextlib.closing(machine.run(path='request', source=source, data=data)) as engine:
+                    for mch, sta in engine:
+                        steps += 1
+                        if steps > 100000:
+                            raise RuntimeError('no termination at end of stream')
+                        if sta is not None or source.peek() is not None:
+                            continue
+                        if chunks:
+                            source.chain(chunks.pop(0))
+                        elif not eof:
+                            eof = True
+                            source.chain(b'')
+                        # else: resumed at end of stream with nothing new, as the server's loop does
+                if 'request' in data:           # what enip_srv_tcp goes by once the run has ended without an exception
+                    delivered += 1
+                    e = data.request.enip
+                    if len(bytes(e.input.tobytes()) if 'input' in e else b'') != e.length:
+                        ctx.violation('incomplete-frame-delivered-as-message', 'stream of %d bytes cut at %d: a message with %d of its declared %d payload bytes was delivered' % (
+                            len(stream), cut, len(e.input) if 'input' in e else 0, e.length), wit)
+                        return
+                if eof:
+                    break
+    except Exception:
+        pass                    # failing at the truncated frame is what is expected
+    ctx.count('parser:truncated-then-eof')
+    ctx.case(('trunc-parse', stream[:100], len(stream), cut, remembering))
+    if delivered > complete:
+        ctx.violation('incomplete-frame-delivered-as-message', 'stream of %d bytes cut at %d then end-of-stream: %d messages delivered, only %d frames are complete' % (
+            len(stream), cut, delivered, complete), wit)
+
+
 def check_parse(ctx, cpppo, parser, frames, chunks, label):
     from vlib import refcodec as rc
     stream = b''.join(frames)
@@ -135,6 +188,10 @@ def parser_level(ctx, rng, budget_s):
         n += 1
         ctx.count('parser:streams')
         check_parse(ctx, cpppo, parser, frames, [stream], 'all-in-one')
+        # end-of-stream inside the last frame, in particular one byte before its end
+        for cut in sorted(set([len(stream) - 1, len(stream) - 2, len(stream) - len(frames[-1]) + 23, len(stream) - len(frames[-1]) + 24] + [rng.randrange(0, len(stream)) for _ in range(3)])):
+            if 0 <= cut < len(stream):
+                check_truncated(ctx, cpppo, parser, frames, cut, remembering=(cut + n) % 2 == 0)
         if len(stream) <= 400:
             for cut in range(1, len(stream)):
                 check_parse(ctx, cpppo, parser, frames, [stream[:cut], stream[cut:]], 'two-way-splits')
